@@ -47,7 +47,11 @@ Fixpoint enc_val (v : jv) : sexp :=
 
 Definition dec_fn0 (e : sexp) : option fn0 :=
   if atom_is "error" e then Some F0Error else if atom_is "length" e then Some F0Length
-  else if atom_is "tostring" e then Some F0ToString else if atom_is "tojson" e then Some F0ToJson else None.
+  else if atom_is "tostring" e then Some F0ToString else if atom_is "tojson" e then Some F0ToJson
+  else if atom_is "tohtml" e then Some F0ToHtml else if atom_is "touri" e then Some F0ToUri
+  else if atom_is "tocsv" e then Some F0ToCsv else if atom_is "totsv" e then Some F0ToTsv
+  else if atom_is "tosh" e then Some F0ToSh else if atom_is "tobase64" e then Some F0ToBase64
+  else if atom_is "keys" e then Some F0Keys else if atom_is "type" e then Some F0Type else None.
 Definition dec_binop (e : sexp) : option binop :=
   if atom_is "add" e then Some OAdd else if atom_is "sub" e then Some OSub
   else if atom_is "eq" e then Some OEq else if atom_is "ne" e then Some ONe
@@ -97,6 +101,9 @@ Fixpoint dec_pat (e : sexp) : option pattern :=
       else None
   | _ => None
   end.
+
+(* the pattern of reduce / foreach: a bare name is $name *)
+Definition dec_pn (e : sexp) : option pattern := match e with Atom _ => option_map PVar (dec_name e) | _ => dec_pat e end.
 
 Fixpoint dec_q (e : sexp) : option query :=
   match e with
@@ -153,6 +160,7 @@ Fixpoint dec_q (e : sexp) : option query :=
           else if atom_is "indexq" t then match dec_q x, dec_q y with Some a, Some b => Some (QIndexQ a b) | _, _ => None end
           (* `if c then a end` (e.Else == nil, also at the end of an elif chain): compileIf emits the then-branch, the
              jump over the (absent) else and nothing more -- the code of `else .`, whose compileQuery appends nothing *)
+          else if atom_is "call1" t then (if atom_is "error" x then option_map (QCall1 F1Error) (dec_q y) else None)
           else if atom_is "ifn" t then match dec_q x, dec_q y with Some c, Some a => Some (QIf c a QId) | _, _ => None end
           else None
       | [x; y; z] =>
@@ -178,21 +186,21 @@ Fixpoint dec_q (e : sexp) : option query :=
             | _, _, _, _ => None
             end
           else
-          match dec_q x, dec_name (SList ps), dec_q z, dec_q u with
+          match dec_q x, dec_pat (SList ps), dec_q z, dec_q u with
           | Some s, Some n, Some i, Some up =>
               if atom_is "reduce" t then Some (QReduce s n i up)
               else if atom_is "foreach" t then Some (QForeach s n i up None) else None
           | _, _, _, _ => None
           end
       | [x; y; z; u] =>
-          match dec_q x, dec_name y, dec_q z, dec_q u with
+          match dec_q x, dec_pn y, dec_q z, dec_q u with
           | Some s, Some n, Some i, Some up =>
               if atom_is "reduce" t then Some (QReduce s n i up)
               else if atom_is "foreach" t then Some (QForeach s n i up None) else None
           | _, _, _, _ => None
           end
       | [x; y; z; u; w] =>
-          match dec_q x, dec_name y, dec_q z, dec_q u, dec_q w with
+          match dec_q x, dec_pn y, dec_q z, dec_q u, dec_q w with
           | Some s, Some n, Some i, Some up, Some ex =>
               if atom_is "foreach" t then Some (QForeach s n i up (Some ex)) else None
           | _, _, _, _, _ => None
@@ -219,10 +227,19 @@ Definition enc_instr (i : instr) : sexp :=
   | Icall (NF0 F0Length) => SList [A "call"; A "length"; A "0"]
   | Icall (NF0 F0ToString) => SList [A "call"; A "tostring"; A "0"]
   | Icall (NF0 F0ToJson) => SList [A "call"; A "tojson"; A "0"]
+  | Icall (NF0 F0ToHtml) => SList [A "call"; A "_tohtml"; A "0"]
+  | Icall (NF0 F0ToUri) => SList [A "call"; A "_touri"; A "0"]
+  | Icall (NF0 F0ToCsv) => SList [A "call"; A "_tocsv"; A "0"]
+  | Icall (NF0 F0ToTsv) => SList [A "call"; A "_totsv"; A "0"]
+  | Icall (NF0 F0ToSh) => SList [A "call"; A "_tosh"; A "0"]
+  | Icall (NF0 F0ToBase64) => SList [A "call"; A "_tobase64"; A "0"]
+  | Icall (NF0 F0Keys) => SList [A "call"; A "keys"; A "0"]
+  | Icall (NF0 F0Type) => SList [A "call"; A "type"; A "0"]
   | Icall (NF2 o) => SList [A "call";
         match o with OAdd => A "_add" | OSub => A "_subtract" | OEq => A "_equal" | ONe => A "_notequal"
                    | OLt => A "_less" | OLe => A "_lesseq" | OGt => A "_greater" | OGe => A "_greatereq" end; A "2"]
   | Icall NBreak => SList [A "call"; A "_break"; A "0"]
+  | Icall (NF1 F1Error) => SList [A "call"; A "error"; A "1"]
   | Icall NIndex2 => SList [A "call"; A "_index"; A "2"]
   | Icall NSlice3 => SList [A "call"; A "_slice"; A "3"]
   | Iscope id n a => SList [A "scope"; nat_atom id; nat_atom n; nat_atom a]
@@ -295,7 +312,9 @@ Definition run_sexp (spec : bool) (e : sexp) : sexp :=
         end
       else A "undecodable"
   | SList [k; ast; inp; outs; fin] =>
-      if atom_is "run" k then
+      (* runb: the outputs are those of the program with the jq-defined builtins compiled on demand from builtin.jq; the
+         AST is the same program with the definitions written in front of it (harness/c01vm2/builtins.go) *)
+      if atom_is "run" k || atom_is "runb" k then
         match dec_q ast, dec_val inp with
         | Some q, Some v =>
             let impl := SList [outs; fin] in
